@@ -47,30 +47,44 @@ return C
 type poolEntry struct {
 	expr  string // Lua expression denoting the value
 	fresh bool   // stateful: evaluated anew for every call
+	core  bool   // member of the core edge pool (exhaustive pairs in the quick tier)
 }
 
+// The core pool is the edge-value list of the design; the extended pool adds
+// strings that are meaningful to some library function (formats, patterns,
+// pack formats, option names, chunks) and more object kinds.  Core values
+// come first.
 var pool = func() []poolEntry {
 	var p []poolEntry
-	for _, e := range []string{
-		"nil", "true", "false", "-1", "0", "1", "2", "255", "256", "2147483648", "math.maxinteger", "math.mininteger",
-		"2^53", "0.5", "-0.5", "(0/0)", "math.huge", "-math.huge", "-0.0", "1e308",
-		`""`, `"a"`, `"%"`, `"%b"`, `"["`, `"(()"`, "C04.big", `"10"`, `"0x10"`, `"1e1"`, `" 7 "`, `"-"`, `"\0"`, `"\xe4\xb8\xad\xff"`,
+	add := func(core, fresh bool, exprs ...string) {
+		for _, e := range exprs {
+			p = append(p, poolEntry{expr: e, fresh: fresh, core: core})
+		}
+	}
+	add(true, false, "nil", "true", "false", "-1", "0", "1", "255", "256", "2147483648", "math.maxinteger", "math.mininteger",
+		"2^53", "0.5", "-0.5", "(0/0)", "math.huge", "-math.huge",
+		`""`, `"a"`, `"%"`, `"%b"`, `"["`, `"(()"`, "C04.big", `"10"`, `"0x10"`, `"1e1"`, "io.stdout")
+	add(true, true, "{}", "{1,2,3}", "C04.errt()", "C04.fn()", "C04.deadco()", "C04.suspco()", "C04.file()", "C04.ctx()")
+	add(false, false, "2", "-0.0", "1e308", `" 7 "`, `"-"`, `"\0"`, `"\xe4\xb8\xad\xff"`,
 		`"%d"`, `"%s%s"`, `"%5.2f"`, `"%q"`, `"%c"`, `"%99d"`, `"%.99f"`, `"%a*"`, `"^(a*)*$"`, `"%f[%w]"`, `"%1"`,
 		`"i4"`, `"z"`, `"s1"`, `"!"`, `"i17"`, `"<I16"`, `"Xi4"`, `"c0"`, `"d"`,
 		`"r"`, `"w"`, `"n"`, `"l"`, `"*a"`, `"set"`, `"end"`, `"no"`, `"full"`, `"k"`, `"kv"`, `"count"`, `"step"`, `"*t"`, `"!%c"`, `"%Ez"`, `"Sl"`, `"crl"`, `"t"`, `"bt"`,
 		`"cpu"`, `"kill"`, `"killnow"`, `"string"`, `"x.y"`, `"?;./?.lua"`, `"return 1"`, `"true"`, `"exit 3"`, `"echo hi"`,
-		"io.stdout", "print", "string.rep", "coroutine.yield",
-	} {
-		p = append(p, poolEntry{expr: e})
-	}
-	for _, e := range []string{
-		"{}", "{1,2,3}", "{n=3}", "{year=2020,month=1,day=1}", "{year=math.maxinteger,month=math.mininteger,day=0.5}", "{kill={cpu=1000}}", "{{},{}}",
-		"C04.errt()", "C04.fn()", "C04.deadco()", "C04.suspco()", "C04.newco()", "C04.file()", "C04.ctx()", "C04.res()", "C04.dump()",
-	} {
-		p = append(p, poolEntry{expr: e, fresh: true})
-	}
+		"print", "string.rep", "coroutine.yield")
+	add(false, true, "{n=3}", "{year=2020,month=1,day=1}", "{year=math.maxinteger,month=math.mininteger,day=0.5}", "{kill={cpu=1000}}", "{{},{}}",
+		"C04.newco()", "C04.res()", "C04.dump()")
 	return p
 }()
+
+func corePoolSize() int {
+	n := 0
+	for _, e := range pool {
+		if e.core {
+			n++
+		}
+	}
+	return n
+}
 
 // subset used for the calls of returned functions (iterators, wrapped coroutines, loaded chunks)
 var derivedPool = []string{"nil", "0", "1", "math.maxinteger", `""`, `"a"`, "{}", "C04.errt()", "C04.fn()"}
@@ -90,7 +104,8 @@ type libSess struct {
 	consts map[string]rt.Value  // cached non-fresh pool values
 	chunks map[string]rt.Value  // compiled "return <expr>" closures
 	calls  int
-	dirty  bool
+	dirty  bool // a state-changing function was called: renew before the next function
+	broken bool // the pool constructors no longer work: renew now
 }
 
 func evalValues(s *gl.Sess, f rt.Value) (vals []rt.Value, err error) {
@@ -287,7 +302,7 @@ var dirtyRE = regexp.MustCompile(`setmetatable|sethook|io\.output|io\.input|setu
 type libRunner struct {
 	x      *exec
 	ls     *libSess
-	fnList []string
+	lastFn string
 }
 
 func (lr *libRunner) renew() bool {
@@ -302,11 +317,12 @@ func (lr *libRunner) renew() bool {
 // call performs one library call.  argIdx indexes pool.
 func (lr *libRunner) call(fnExpr string, argIdx []int) {
 	x, c := lr.x, lr.x.c
-	if lr.ls == nil || lr.ls.calls >= 1500 || lr.ls.dirty {
+	if lr.ls == nil || lr.ls.calls >= 1500 || lr.ls.broken || lr.ls.dirty && fnExpr != lr.lastFn {
 		if !lr.renew() {
 			return
 		}
 	}
+	lr.lastFn = fnExpr
 	ls := lr.ls
 	f, ok := ls.fns[fnExpr]
 	if !ok {
@@ -325,7 +341,7 @@ func (lr *libRunner) call(fnExpr string, argIdx []int) {
 		v, err := ls.value(pool[a].expr, pool[a].fresh)
 		if err != nil {
 			c.Feature("pool-value-failed", 1)
-			ls.dirty = true
+			ls.broken = true
 			return
 		}
 		args[i] = v
@@ -362,6 +378,7 @@ func (lr *libRunner) judge(fnExpr, src string, res result) {
 			fmt.Sprintf("%s: a Go panic escaped the call: %s\n%s", src, res.panicMsg, res.stack), src)
 		return
 	case kHang:
+		c.Feature("hang/"+src, 1)
 		return
 	case kError:
 		if argCheckRE.MatchString(res.errMsg) {
@@ -421,6 +438,7 @@ func (lr *libRunner) derived(src string, ls *libSess, vals []rt.Value) {
 				return
 			}
 			if res.kind == kHang {
+				c.Feature("hang/"+dsrc, 1)
 				lr.ls = nil
 				return
 			}
@@ -456,7 +474,15 @@ func runStdlib(x *exec) {
 		c.Output("functions", strings.Join(fnList, " "))
 	}
 	P := len(pool)
-	// exhaustive arity <= 2 (the quick tier's sanitizer slice takes every 10th call)
+	// exhaustive arity <= 2: over the whole pool in the thorough tier, over the
+	// core pool (the design's edge list) in the quick tier, whose pairs with an
+	// extended value are sampled below; the quick tier's sanitizer slice takes
+	// every 10th call
+	P2 := P
+	if c.Tier == vp.Quick {
+		P2 = corePoolSize()
+	}
+	c.Feature("pool-size-for-exhaustive-pairs", int64(P2))
 	stride := 1
 	if x.variant != "plain" && c.Tier == vp.Quick {
 		stride = 10
@@ -477,22 +503,23 @@ func runStdlib(x *exec) {
 		for a := 0; a < P; a++ {
 			run([]int{a})
 		}
-		for a := 0; a < P; a++ {
-			for b := 0; b < P; b++ {
+		for a := 0; a < P2; a++ {
+			for b := 0; b < P2; b++ {
 				run([]int{a, b})
 			}
 		}
-		if k%4096 < P*P%4096 {
-			c.Flush(false)
-		}
+		c.Flush(false)
 	}
 	c.Feature("exhaustive-arity<=2-calls-total", int64(k))
 	// sampled arity 3-4
 	r := c.Rand("stdlib-sampled")
-	n := x.slice(c.Pick(50000, 2000000)) / c.NB
+	n := x.slice(c.Pick(100000, 2000000)) / c.NB
 	for i := 0; i < n; i++ {
 		fn := fnList[r.Intn(len(fnList))]
 		ar := 3 + r.Intn(2)
+		if c.Tier == vp.Quick && i%2 == 0 {
+			ar = 2 // pairs over the extended pool are sampled in the quick tier
+		}
 		args := make([]int, ar)
 		for j := range args {
 			args[j] = r.Intn(P)
